@@ -659,6 +659,7 @@ namespace hs
                 pc0 = S.o->reading(2, r.size);
         }
         std::size_t arena_cache0 = c.kind == K_ARENA ? S.o->reading(7) : 0;
+        auto        too_large0   = heap.stats_too_large_;
         auto        oom0 = h.oom_calls, bad0 = h.badsize_calls;
         heap.begin_op(c.faultable ? fail : 0);
         heap.clear_fault_fired();
@@ -707,6 +708,39 @@ namespace hs
             if (f.is_bad_size && h.badsize_calls == bad0)
                 violate("C03", "handler_not_called",
                         "bad_allocation_size thrown without calling its handler");
+            // the narrow liveness clause: after an earlier failure, with no fault attached to this request and an
+            // upstream that says yes, a request comfortably inside the advertised limits must be served
+            if (S.failure_seen && !fired && fail == 0 && heap.stats_too_large_ == too_large0 && r.fam != COMP
+                && !in_over_)
+            {
+                bool comfortable = false;
+                if (c.grows && c.faultable && c.unbounded)
+                {
+                    if (c.kind == K_POOL)
+                        comfortable = !r.array || usable <= next0 / 2;
+                    else if (c.kind == K_COLL)
+                        comfortable = !r.array;
+                    else if (c.kind == K_STACK)
+                        comfortable = next0 < (std::size_t(1) << 40)
+                                      && r.count * r.size + r.align + 2 * FENCE + 64 <= next0 / 2;
+                    else if (c.kind == K_ARENA)
+                        comfortable = true;
+                }
+                else if (c.kind == K_ARENA && c.faultable && !c.shrink)
+                {
+                    // one-block source under an uncached arena: it can serve again once its block has come back
+                    bool any = false;
+                    shadow_.for_each([&](Alloc& a) { any = any || a.obj == idx; });
+                    comfortable = !any;
+                }
+                if (comfortable)
+                    violate("C03", "unusable_after_failure",
+                            "after an earlier failed request, a request well inside the advertised limits "
+                            "(fam %d, %s, %zu bytes) failed with %s although no fault was injected and the "
+                            "upstream had memory",
+                            r.fam, r.array ? "array" : "node", r.array ? r.count * r.size : r.size,
+                            f.type.c_str());
+            }
             S.failure_seen   = true;
             S.last_end_valid = false; // a failed request may have moved the stack to a fresh block
             for (auto& m : S.markers)
@@ -1334,7 +1368,18 @@ namespace hs
             break;
         }
         Alloc* a   = nullptr;
-        bool   got = do_alloc(*S, index_of(*S), r, 0, &a, false);
+        in_over_   = true;
+        bool got;
+        try
+        {
+            got = do_alloc(*S, index_of(*S), r, 0, &a, false);
+        }
+        catch (...)
+        {
+            in_over_ = false;
+            throw;
+        }
+        in_over_ = false;
         stats().hit(std::string("reach.over_limit.") + what);
         if (got && c.bounded_max)
             violate("C18,C03", "above_max_succeeded", "a request above %s (node max %zu, array max %zu, "
